@@ -12,18 +12,20 @@ RULE = ("anchor x comparison tables over a 9-row alphabet (3 alpha parts x 3 bet
 ASSUMPTIONS = ["tidytcells.tr.get_aa_sequence is the trusted data source for CDR1/CDR2 (property wording)",
                "the value at [i,j] may depend only on (row i, row j): all 81 ordered row pairs are covered, tables establish locality/order/label independence",
                "rapidfuzz cdist workers=-1 answered with one thread in the bulk spaces"]
-REQUIRED_CLASSES = {"all": ["allele-without-cdr2", "empty-cdr3", "distinct-prime-weights", "permuted-index", "duplicated-index", "rejects-non-table", "free-running-threads", "cdr3-distance-beyond-bins", "table-of-thousands-of-rows", "same-concatenation-different-split", "delta-v-allele", "one-gene-several-alleles"]}
+REQUIRED_CLASSES = {"all": ["allele-without-cdr2", "empty-cdr3", "distinct-prime-weights", "permuted-index", "duplicated-index", "rejects-non-table", "free-running-threads", "cdr3-distance-beyond-bins", "table-of-thousands-of-rows", "same-concatenation-different-split", "delta-v-allele", "one-gene-several-alleles", "mixed-case-cdr3"]}
 MIN_OUTCOMES = 10
 SINGLE_THREAD_RAPIDFUZZ = True
 TIER = "quick"
 
 ALPHA = (("TRAV1-1*01", "CA"), ("TRAV5*01", "CAC"), ("TRAV40*01", ""), ("TRAV1-1*01", "C"), ("TRAV1-1*01", "CS"), ("TRDV1*01", "CA"),
          # 6..10: alleles of ONE gene whose germline CDR1 differ (TRAV12-2: DRGSQS / DRVSQS / DQGSQS) or whose CDR2 exists in one allele only (TRAV2)
-         ("TRAV12-2*01", "CA"), ("TRAV12-2*03", "CA"), ("TRAV12-2*04", "CA"), ("TRAV2*01", "C"), ("TRAV2*02", "C"))
+         ("TRAV12-2*01", "CA"), ("TRAV12-2*03", "CA"), ("TRAV12-2*04", "CA"), ("TRAV2*01", "C"), ("TRAV2*02", "C"),
+         # 11..12: CDR3 strings as given, whatever their case ("arbitrary CDR3 strings")
+         ("TRAV1-1*01", "Ca"), ("TRAV1-1*01", "ca"))
 BETA = (("TRBV2*01", "CS"), ("TRBV6-9*01", "CSS"), ("TRBV2*01", ""), ("TRBV2*01", "SC"), ("TRBV2*01", "C"), ("TRBV2*01", "CSC"),
         # 6..7: TRBV19 alleles with different CDR2 (SQIVND / SHIVND)
-        ("TRBV19*01", "CS"), ("TRBV19*02", "CS"))
-ALLELE_SETS = (((6, 6), (7, 6), (8, 7), (6, 7), (7, 7)), ((9, 6), (10, 6), (9, 7)))
+        ("TRBV19*01", "CS"), ("TRBV19*02", "CS"), ("TRBV2*01", "cS"))
+ALLELE_SETS = (((6, 6), (7, 6), (8, 7), (6, 7), (7, 7)), ((9, 6), (10, 6), (9, 7)), ((0, 0), (11, 8), (12, 0), (0, 8), (12, 8)))
 R = tuple(itertools.product(range(3), range(3)))
 CLASSES = ("AlphaCdr3Levenshtein", "BetaCdr3Levenshtein", "Cdr3Levenshtein", "AlphaCdrLevenshtein", "BetaCdrLevenshtein", "CdrLevenshtein")
 WNAMES = ("insertion_weight", "deletion_weight", "substitution_weight", "alpha_weight", "beta_weight", "cdr1_weight", "cdr2_weight", "cdr3_weight")
@@ -324,7 +326,9 @@ def check_case(case, acc):
         if any(not loops(ALPHA[S[i][0]][0])[1] for i in rows):
             acc.cls("allele-without-cdr2")
         A = table([S[i] for i in rows], "shifted")
-        for cls in ("AlphaCdrLevenshtein", "BetaCdrLevenshtein", "CdrLevenshtein"):
+        if si == 2:
+            acc.cls("mixed-case-cdr3")
+        for cls in ("AlphaCdrLevenshtein", "BetaCdrLevenshtein", "CdrLevenshtein") + (("Cdr3Levenshtein",) if si == 2 else ()):
             m, kw = make(cls, PRIMES)
             r = acc.call(m.calc_cdist_matrix, A, A.iloc[::-1])
             exp = [[ref_value(cls, kw, S[a], S[b]) for b in rows[::-1]] for a in rows]
